@@ -277,7 +277,7 @@ impl Callable for If {
         if yes != no {
             bail!("Condition return type must be same: {:?} {:?}", yes, no);
         }
-        Ok(yes)
+        yes.merge(no)
     }
     fn call(&self, ctx: ScriptContextRef, args: &[Value]) -> Result<Value, Error> {
         let cond: bool = args[0].value_of(ctx.clone())?.try_into()?;
